@@ -299,6 +299,9 @@ func (f *ffn) typOf(x ast.Expr) string {
 	case "func(int)bool":
 		return "pred"
 	default:
+		if t2, ok := fTypExt[t]; ok { // gprops.go
+			return t2
+		}
 		refuse("type %s", t)
 	}
 	return ""
@@ -346,6 +349,9 @@ func (c *fctx) conv(v fval, t string) string {
 	if v.typ == "nil" {
 		if t == "err" {
 			return "none"
+		}
+		if z, ok := fNilExt[t]; ok { // gprops.go: a nil slice is the empty list
+			return z
 		}
 		refuse("nil where a %s is expected", t)
 	}
@@ -508,6 +514,11 @@ func (c *fctx) expr(x ast.Expr, pre *[]fbind) fval {
 				parts = append(parts, fatom(c.conv(c.expr(n.Elts[i], pre), t)))
 			}
 			return fval{typ: "feat", expr: "(Gts.Feature.mk " + strings.Join(parts, " ") + ")"}
+		}
+		if fLitExt != nil { // gprops.go
+			if v, ok := fLitExt(c, n, pre); ok {
+				return v
+			}
 		}
 		refuse("composite literal of %s", ftypeText(n.Type))
 	case *ast.CallExpr:
@@ -1213,6 +1224,17 @@ func (c *fctx) exprStmt(n *ast.ExprStmt, rest []ast.Stmt, k func(c *fctx) string
 			off := c.conv(c.expr(d.Low, &pre), "int")
 			t := c.bind(&pre, fmt.Sprintf("goCopyAt %s %s %s", q, fatom(off), fatom(src.expr)))
 			line = fmt.Sprintf("let %s : %s := %s;", q, fleanOf(c.vars[q].typ, c.f), t)
+		case *ast.IndexExpr:
+			// copy(Q[i], src): the row is read, overwritten and stored back (gprops.go)
+			q = identName(d.X)
+			if q == "" || fElem[c.vars[q].typ] != src.typ {
+				refuse("copy: the destination is not Q, Q[offset:] or Q[i]")
+			}
+			c.checkStore(q)
+			idx := fatom(c.conv(c.expr(d.Index, &pre), "int"))
+			old := c.bind(&pre, fmt.Sprintf("goIdx %s %s", q, idx))
+			t := c.bind(&pre, fmt.Sprintf("goSet %s %s (goCopy %s %s)", q, idx, old, fatom(src.expr)))
+			return fwrap(pre, fmt.Sprintf("let %s : %s := %s;", q, fleanOf(c.vars[q].typ, c.f), t)+"\n"+c.stmts(rest, k))
 		default:
 			refuse("copy: the destination is not Q or Q[offset:]")
 		}
@@ -1819,7 +1841,7 @@ func (c *fctx) rangeLoop(n *ast.RangeStmt, rest []ast.Stmt, k func(c *fctx) stri
 		us = ", " + us
 	}
 	elemT := fleanOf(et, c.f)
-	if strings.Contains(elemT, "→") || strings.Contains(elemT, "×") {
+	if strings.Contains(elemT, "→") || strings.Contains(elemT, "×") || strings.Contains(elemT, " ") {
 		elemT = "(" + elemT + ")"
 	}
 	text := strings.Builder{}
